@@ -1,37 +1,39 @@
-import GomlVerif.Lemmas.ValTyOps
+import GomlVerif.Lemmas.ValTy2Ops
+import GomlVerif.Lemmas.ValTySound
 /-!
-Type soundness of `Sem` w.r.t. `Wt` on the fragment `ValTy.okE` (C03): a value returned by `eval` for
-an expression annotated `τ` inhabits `τ` instantiated by the type arguments of the current activation.
-Induction on the fuel; expressions, operand lists, arms and `apply` together.
+Type soundness of `Sem` w.r.t. `Wt` WITH references (C03): the induction of `Lemmas/ValTySound.lean` over the
+store-typed value typing `ValTyR.VT S P Ψ`.  Every statement takes the world invariant `WT S P Ψ w` and returns an
+append-only extension `Ψ'` of the store typing with `WT S P Ψ' w'` and the value typed under `Ψ'`; values and
+environments that cross a sub-evaluation are weakened along the extension (`VT.mono`, `ET.mono`).
 -/
-namespace Goml.ValTy
-open Goml Goml.Sem Goml.Wt Goml.Mono
+namespace Goml.ValTyR
+open Goml Goml.Sem Goml.Wt Goml.Mono Goml.ValTy
 
-/-- the statement at one fuel -/
 structure SoundAt (S : Sig) (P : Prog) (n : Nat) : Prop where
-  expr : ∀ {e : Expr} {ρ : Env} {w : World} {Γ : TyEnv} {K : Know} {θ : Subst} {v : Val} {w' : World},
-    okE S P false Γ K e = true → errs S Γ e = [] → ET S P θ ρ Γ → KOk K ρ →
-    eval n P ρ w e = .ok v w' → VT S P v (substTy θ (getTy e))
-  list : ∀ {es : List Expr} {ρ : Env} {w : World} {Γ : TyEnv} {K : Know} {θ : Subst} {vs : List Val} {w' : World},
-    okL S P false Γ K es = true → errsList S Γ es = [] → ET S P θ ρ Γ → KOk K ρ →
-    evalList n P ρ w es = .ok vs w' → VTs S P vs (substTys θ (getTys es))
-  arms : ∀ {arms : List Arm} {d : Option Expr} {ρ : Env} {w : World} {Γ : TyEnv} {K : Know} {θ : Subst}
+  expr : ∀ {e : Expr} {ρ : Env} {w : World} {Γ : TyEnv} {K : Know} {θ : Subst} {Ψ : List Ty} {v : Val} {w' : World},
+    okE S P true Γ K e = true → errs S Γ e = [] → ET S P Ψ θ ρ Γ → KOk K ρ → WT S P Ψ w →
+    eval n P ρ w e = .ok v w' → ∃ Ψ', Ext Ψ Ψ' ∧ WT S P Ψ' w' ∧ VT S P Ψ' v (substTy θ (getTy e))
+  list : ∀ {es : List Expr} {ρ : Env} {w : World} {Γ : TyEnv} {K : Know} {θ : Subst} {Ψ : List Ty} {vs : List Val} {w' : World},
+    okL S P true Γ K es = true → errsList S Γ es = [] → ET S P Ψ θ ρ Γ → KOk K ρ → WT S P Ψ w →
+    evalList n P ρ w es = .ok vs w' → ∃ Ψ', Ext Ψ Ψ' ∧ WT S P Ψ' w' ∧ VTs S P Ψ' vs (substTys θ (getTys es))
+  arms : ∀ {arms : List Arm} {d : Option Expr} {ρ : Env} {w : World} {Γ : TyEnv} {K : Know} {θ : Subst} {Ψ : List Ty}
     {sv : Option String} {st rt : Ty} {sval v : Val} {w' : World},
-    okA S P false Γ K sv arms = true → errsArms S Γ st rt arms = [] →
-    (∀ d0, d = some d0 → okE S P false Γ K d0 = true ∧ errs S Γ d0 = [] ∧ getTy d0 = rt) →
-    ET S P θ ρ Γ → KOk K ρ → (∀ x, sv = some x → lookupEnv ρ x = some sval) →
-    evalArms n P ρ w sval arms d = .ok v w' → VT S P v (substTy θ rt)
-  app : ∀ {name : String} {g : Fn} {θ : Subst} {args : List Val} {w : World} {v : Val} {w' : World},
-    P.findFn name = some g → VTs S P args (substTys θ (g.params.map (·.2))) →
-    apply n P w (.fn name) args = .ok v w' → VT S P v (substTy θ g.ret)
-  appv : ∀ {fv : Val} {as : List Ty} {r : Ty} {args : List Val} {w : World} {v : Val} {w' : World},
-    VT S P fv (.func as r) → VTs S P args as → apply n P w fv args = .ok v w' → VT S P v r
+    okA S P true Γ K sv arms = true → errsArms S Γ st rt arms = [] →
+    (∀ d0, d = some d0 → okE S P true Γ K d0 = true ∧ errs S Γ d0 = [] ∧ getTy d0 = rt) →
+    ET S P Ψ θ ρ Γ → KOk K ρ → WT S P Ψ w → (∀ x, sv = some x → lookupEnv ρ x = some sval) →
+    evalArms n P ρ w sval arms d = .ok v w' → ∃ Ψ', Ext Ψ Ψ' ∧ WT S P Ψ' w' ∧ VT S P Ψ' v (substTy θ rt)
+  app : ∀ {name : String} {g : Fn} {θ : Subst} {Ψ : List Ty} {args : List Val} {w : World} {v : Val} {w' : World},
+    P.findFn name = some g → VTs S P Ψ args (substTys θ (g.params.map (·.2))) → WT S P Ψ w →
+    apply n P w (.fn name) args = .ok v w' → ∃ Ψ', Ext Ψ Ψ' ∧ WT S P Ψ' w' ∧ VT S P Ψ' v (substTy θ g.ret)
+  appv : ∀ {fv : Val} {as : List Ty} {r : Ty} {Ψ : List Ty} {args : List Val} {w : World} {v : Val} {w' : World},
+    VT S P Ψ fv (.func as r) → VTs S P Ψ args as → WT S P Ψ w → apply n P w fv args = .ok v w' →
+    ∃ Ψ', Ext Ψ Ψ' ∧ WT S P Ψ' w' ∧ VT S P Ψ' v r
 
 section
 variable {S : Sig} {P : Prog}
 
-theorem okProg_fn (hP : okProg S P = true) {name : String} {g : Fn} (h : P.findFn name = some g) :
-    errs S (bindAll g.params []) g.body = [] ∧ getTy g.body = g.ret ∧ okE S P false (bindAll g.params []) [] g.body = true := by
+theorem okProg_fn (hP : okProg S P true = true) {name : String} {g : Fn} (h : P.findFn name = some g) :
+    errs S (bindAll g.params []) g.body = [] ∧ getTy g.body = g.ret ∧ okE S P true (bindAll g.params []) [] g.body = true := by
   unfold okProg at hP
   simp only [List.all_eq_true] at hP
   have hm : g ∈ P.fns := List.mem_of_find?_eq_some h
@@ -40,37 +42,27 @@ theorem okProg_fn (hP : okProg S P = true) {name : String} {g : Fn} (h : P.findF
   simp only [Bool.and_eq_true, List.isEmpty_iff, List.append_eq_nil_iff, checkEq_nil] at this
   exact ⟨this.1.1, this.1.2, this.2⟩
 
-theorem res_ok_inj {α : Type} {a b : α} {w w' : World} (h : (Res.ok a w : Res α) = .ok b w') : a = b ∧ w = w' := by
-  injection h with h1 h2; exact ⟨h1, h2⟩
-
-theorem armMatches_enum {a b : String} {idx : Nat} {t : Ty} {as : List Expr} {v : Val}
-    (h : armMatches (.constr (.enum a b idx) t as) v = true) : ∃ n args, v = .enumV n idx args := by
-  cases v <;> simp [armMatches] at h
-  subst h; exact ⟨_, _, rfl⟩
-
-theorem substTy_func (θ : Subst) (ps : List Ty) (r : Ty) : substTy θ (.func ps r) = .func (substTys θ ps) (substTy θ r) := by
-  simp [substTy]
-
-theorem step_app (hS : SigClosed S) (hP : okProg S P = true) {n : Nat} (ih : SoundAt S P n)
-    {name : String} {g : Fn} {θ : Subst} {args : List Val} {w : World} {v : Val} {w' : World}
-    (hg : P.findFn name = some g) (ha : VTs S P args (substTys θ (g.params.map (·.2))))
-    (hev : apply (n + 1) P w (.fn name) args = .ok v w') : VT S P v (substTy θ g.ret) := by
+theorem step_app (hP : okProg S P true = true) {n : Nat} (ih : SoundAt S P n)
+    {name : String} {g : Fn} {θ : Subst} {Ψ : List Ty} {args : List Val} {w : World} {v : Val} {w' : World}
+    (hg : P.findFn name = some g) (ha : VTs S P Ψ args (substTys θ (g.params.map (·.2)))) (hw : WT S P Ψ w)
+    (hev : apply (n + 1) P w (.fn name) args = .ok v w') :
+    ∃ Ψ', Ext Ψ Ψ' ∧ WT S P Ψ' w' ∧ VT S P Ψ' v (substTy θ g.ret) := by
   rw [apply_fn, hg] at hev
   simp only [] at hev
   obtain ⟨herr, hret, hok⟩ := okProg_fn hP hg
-  have hρ := ET_bind (S := S) (P := P) (θ := θ) g.params args [] [] ha .nil
-  have := ih.expr hok herr hρ (KOk_nil _) hev
+  have hρ := ET_bind (S := S) (P := P) (Ψ := Ψ) (θ := θ) g.params args [] [] ha .nil
+  have := ih.expr hok herr hρ (KOk_nil _) hw hev
   rwa [hret] at this
 
 theorem step_list {n : Nat} (ih : SoundAt S P n) {es : List Expr} {ρ : Env} {w : World} {Γ : TyEnv} {K : Know}
-    {θ : Subst} {vs : List Val} {w' : World} (hok : okL S P false Γ K es = true) (herr : errsList S Γ es = [])
-    (hρ : ET S P θ ρ Γ) (hK : KOk K ρ) (hev : evalList (n + 1) P ρ w es = .ok vs w') :
-    VTs S P vs (substTys θ (getTys es)) := by
+    {θ : Subst} {Ψ : List Ty} {vs : List Val} {w' : World} (hok : okL S P true Γ K es = true) (herr : errsList S Γ es = [])
+    (hρ : ET S P Ψ θ ρ Γ) (hK : KOk K ρ) (hw : WT S P Ψ w) (hev : evalList (n + 1) P ρ w es = .ok vs w') :
+    ∃ Ψ', Ext Ψ Ψ' ∧ WT S P Ψ' w' ∧ VTs S P Ψ' vs (substTys θ (getTys es)) := by
   cases es with
   | nil =>
     rw [evalList_nil_at] at hev
-    obtain ⟨rfl, _⟩ := res_ok_inj hev
-    simp only [getTys, substTys]; exact .nil
+    obtain ⟨rfl, rfl⟩ := res_ok_inj hev
+    exact ⟨Ψ, Ext.refl Ψ, hw, by simp only [getTys, substTys]; exact .nil⟩
   | cons e es =>
     simp only [okL, Bool.and_eq_true] at hok
     simp only [errsList, List.append_eq_nil_iff] at herr
@@ -79,20 +71,22 @@ theorem step_list {n : Nat} (ih : SoundAt S P n) {es : List Expr} {ρ : Env} {w 
     | fail f w1 => rw [h1] at hev; simp at hev
     | ok v1 w1 =>
       rw [h1] at hev; simp only [Res.andThen_ok] at hev
+      obtain ⟨Ψ1, hx1, hw1, hv1⟩ := ih.expr hok.1 herr.1 hρ hK hw h1
       cases h2 : evalList n P ρ w1 es with
       | fail f w2 => rw [h2] at hev; simp at hev
       | ok vs2 w2 =>
         rw [h2] at hev; simp only [Res.andThen_ok] at hev
-        obtain ⟨rfl, _⟩ := res_ok_inj hev
-        simp only [getTys, substTys]
-        exact .cons (ih.expr hok.1 herr.1 hρ hK h1) (ih.list hok.2 herr.2 hρ hK h2)
+        obtain ⟨rfl, rfl⟩ := res_ok_inj hev
+        obtain ⟨Ψ2, hx2, hw2, hv2⟩ := ih.list hok.2 herr.2 (hρ.mono hx1) hK hw1 h2
+        exact ⟨Ψ2, hx1.trans hx2, hw2, by simp only [getTys, substTys]; exact .cons (hv1.mono hx2) hv2⟩
 
 theorem step_arms {n : Nat} (ih : SoundAt S P n) {arms : List Arm} {d : Option Expr} {ρ : Env} {w : World}
-    {Γ : TyEnv} {K : Know} {θ : Subst} {sv : Option String} {st rt : Ty} {sval v : Val} {w' : World}
-    (hok : okA S P false Γ K sv arms = true) (herr : errsArms S Γ st rt arms = [])
-    (hd : ∀ d0, d = some d0 → okE S P false Γ K d0 = true ∧ errs S Γ d0 = [] ∧ getTy d0 = rt)
-    (hρ : ET S P θ ρ Γ) (hK : KOk K ρ) (hsv : ∀ x, sv = some x → lookupEnv ρ x = some sval)
-    (hev : evalArms (n + 1) P ρ w sval arms d = .ok v w') : VT S P v (substTy θ rt) := by
+    {Γ : TyEnv} {K : Know} {θ : Subst} {Ψ : List Ty} {sv : Option String} {st rt : Ty} {sval v : Val} {w' : World}
+    (hok : okA S P true Γ K sv arms = true) (herr : errsArms S Γ st rt arms = [])
+    (hd : ∀ d0, d = some d0 → okE S P true Γ K d0 = true ∧ errs S Γ d0 = [] ∧ getTy d0 = rt)
+    (hρ : ET S P Ψ θ ρ Γ) (hK : KOk K ρ) (hw : WT S P Ψ w) (hsv : ∀ x, sv = some x → lookupEnv ρ x = some sval)
+    (hev : evalArms (n + 1) P ρ w sval arms d = .ok v w') :
+    ∃ Ψ', Ext Ψ Ψ' ∧ WT S P Ψ' w' ∧ VT S P Ψ' v (substTy θ rt) := by
   cases arms with
   | nil =>
     rw [evalArms_nil_at] at hev
@@ -101,7 +95,7 @@ theorem step_arms {n : Nat} (ih : SoundAt S P n) {arms : List Arm} {d : Option E
     | some d0 =>
       simp only [] at hev
       obtain ⟨h1, h2, h3⟩ := hd d0 rfl
-      have := ih.expr h1 h2 hρ hK hev
+      have := ih.expr h1 h2 hρ hK hw hev
       rwa [h3] at this
   | cons a rest =>
     obtain ⟨lhs, body⟩ := a
@@ -111,9 +105,10 @@ theorem step_arms {n : Nat} (ih : SoundAt S P n) {arms : List Arm} {d : Option E
     rw [evalArms_cons_at] at hev
     by_cases hm : armMatches lhs sval = true
     · rw [if_pos hm] at hev
-      have hres : ∀ K', KOk K' ρ → okE S P false Γ K' body = true → VT S P v (substTy θ rt) := by
+      have hres : ∀ K', KOk K' ρ → okE S P true Γ K' body = true →
+          ∃ Ψ', Ext Ψ Ψ' ∧ WT S P Ψ' w' ∧ VT S P Ψ' v (substTy θ rt) := by
         intro K' hK' hok'
-        have := ih.expr hok' hbody hρ hK' hev
+        have := ih.expr hok' hbody hρ hK' hw hev
         rwa [hbt] at this
       cases lhs with
       | constr c t as =>
@@ -129,13 +124,11 @@ theorem step_arms {n : Nat} (ih : SoundAt S P n) {arms : List Arm} {d : Option E
       | prim p => exact hres K hK hok.1
       | _ => simp at hok
     · rw [if_neg hm] at hev
-      exact ih.arms hok.2 hrest hd hρ hK hsv hev
+      exact ih.arms hok.2 hrest hd hρ hK hw hsv hev
 
-
-/-- a local variable evaluates to the value the environment binds -/
-theorem eval_local {n : Nat} {ρ : Env} {w : World} {Γ : TyEnv} {θ : Subst} {x : String} {t : Ty} {v : Val} {w' : World}
-    (hl : (lookupVar Γ x).isSome = true) (hρ : ET S P θ ρ Γ) (hev : eval n P ρ w (.var x t) = .ok v w') :
-    lookupEnv ρ x = some v ∧ ∃ t0, lookupVar Γ x = some t0 ∧ VT S P v (substTy θ t0) := by
+theorem eval_local {n : Nat} {ρ : Env} {w : World} {Γ : TyEnv} {θ : Subst} {Ψ : List Ty} {x : String} {t : Ty} {v : Val} {w' : World}
+    (hl : (lookupVar Γ x).isSome = true) (hρ : ET S P Ψ θ ρ Γ) (hev : eval n P ρ w (.var x t) = .ok v w') :
+    w' = w ∧ lookupEnv ρ x = some v ∧ ∃ t0, lookupVar Γ x = some t0 ∧ VT S P Ψ v (substTy θ t0) := by
   cases n with
   | zero => rw [eval_zero] at hev; cases hev
   | succ n =>
@@ -147,21 +140,42 @@ theorem eval_local {n : Nat} {ρ : Env} {w : World} {Γ : TyEnv} {θ : Subst} {x
       simp only [hx] at this
       obtain ⟨v0, h1, h2⟩ := this
       rw [h1] at hev
-      obtain ⟨rfl, _⟩ := res_ok_inj hev
-      exact ⟨h1, t0, rfl, h2⟩
+      obtain ⟨rfl, rfl⟩ := res_ok_inj hev
+      exact ⟨rfl, h1, t0, rfl, h2⟩
 
-theorem step_expr (hS : SigClosed S) (hP : okProg S P = true) {n : Nat} (ih : SoundAt S P n)
-    {e : Expr} {ρ : Env} {w : World} {Γ : TyEnv} {K : Know} {θ : Subst} {v : Val} {w' : World}
-    (hok : okE S P false Γ K e = true) (herr : errs S Γ e = []) (hρ : ET S P θ ρ Γ) (hK : KOk K ρ)
-    (hev : eval (n + 1) P ρ w e = .ok v w') : VT S P v (substTy θ (getTy e)) := by
+theorem step_appv (hP : okProg S P true = true) {n : Nat} (ih : SoundAt S P n)
+    {fv : Val} {as : List Ty} {r : Ty} {Ψ : List Ty} {args : List Val} {w : World} {v : Val} {w' : World}
+    (hf : VT S P Ψ fv (.func as r)) (ha : VTs S P Ψ args as) (hw : WT S P Ψ w)
+    (hev : apply (n + 1) P w fv args = .ok v w') : ∃ Ψ', Ext Ψ Ψ' ∧ WT S P Ψ' w' ∧ VT S P Ψ' v r := by
+  generalize hτ : Ty.func as r = τ at hf
+  cases hf with
+  | @closure θc ρc Γc pts body hρc herr hok =>
+    injection hτ with h1 h2
+    subst h1; subst h2
+    rw [apply_closure] at hev
+    exact ih.expr hok herr (ET_bind pts args ρc Γc ha hρc) (KOk_nil _) hw hev
+  | @fn name g θ' hg =>
+    unfold fnTy at hτ
+    rw [substTy_func] at hτ
+    injection hτ with h1 h2
+    subst h1; subst h2
+    exact step_app hP ih hg ha hw hev
+  | enumV h1 _ _ => subst hτ; simp [isEnumTy] at h1
+  | structV h1 _ _ => subst hτ; simp [isStructTy] at h1
+  | _ => cases hτ
+
+theorem step_expr (hS : SigClosed S) (hP : okProg S P true = true) {n : Nat} (ih : SoundAt S P n)
+    {e : Expr} {ρ : Env} {w : World} {Γ : TyEnv} {K : Know} {θ : Subst} {Ψ : List Ty} {v : Val} {w' : World}
+    (hok : okE S P true Γ K e = true) (herr : errs S Γ e = []) (hρ : ET S P Ψ θ ρ Γ) (hK : KOk K ρ) (hw : WT S P Ψ w)
+    (hev : eval (n + 1) P ρ w e = .ok v w') : ∃ Ψ', Ext Ψ Ψ' ∧ WT S P Ψ' w' ∧ VT S P Ψ' v (substTy θ (getTy e)) := by
   cases e with
   | var x t =>
     simp only [okE, Bool.or_eq_true] at hok
     by_cases hloc : (lookupVar Γ x).isSome = true
-    · obtain ⟨_, t0, ht0, hv⟩ := eval_local hloc hρ hev
+    · obtain ⟨rfl, _, t0, ht0, hv⟩ := eval_local hloc hρ hev
       simp only [errs, ht0, check_nil] at herr
       have := tyEq herr; subst this
-      simpa [getTy] using hv
+      exact ⟨Ψ, Ext.refl Ψ, hw, by simpa [getTy] using hv⟩
     · have hfn : fnValOk P x t = true := by
         rcases hok with h | h
         · exact absurd h hloc
@@ -174,7 +188,7 @@ theorem step_expr (hS : SigClosed S) (hP : okProg S P = true) {n : Nat} (ih : So
         have := ET_lookup hρ x
         simpa [hnone] using this
       rw [eval_var, hlk] at hev
-      obtain ⟨rfl, _⟩ := res_ok_inj hev
+      obtain ⟨rfl, rfl⟩ := res_ok_inj hev
       unfold fnValOk at hfn
       cases hg : P.findFn x with
       | none => simp [hg] at hfn
@@ -187,14 +201,15 @@ theorem step_expr (hS : SigClosed S) (hP : okProg S P = true) {n : Nat} (ih : So
           simp only [hm] at hfn
           by_cases hinst : tyBeq (substTy σ (fnTy g)) t = true
           · have hinst := tyEq hinst
+            refine ⟨Ψ, Ext.refl Ψ, hw, ?_⟩
             simp only [getTy, Option.getD_none]
             rw [← hinst, ← substTy_compS]
             exact .fn _ hg
           · simp [hinst] at hfn
   | prim p =>
     rw [eval_prim] at hev
-    obtain ⟨rfl, _⟩ := res_ok_inj hev
-    simp only [getTy, substTy_primTy]; exact VT_prim p (by simpa [okE] using hok)
+    obtain ⟨rfl, rfl⟩ := res_ok_inj hev
+    exact ⟨Ψ, Ext.refl Ψ, hw, by simp only [getTy, substTy_primTy]; exact VT_prim p (by simpa [okE] using hok)⟩
   | tag i t => simp [okE] at hok
   | constr c t args =>
     simp only [okE, Bool.and_eq_true] at hok
@@ -205,7 +220,7 @@ theorem step_expr (hS : SigClosed S) (hP : okProg S P = true) {n : Nat} (ih : So
     | fail f w1 => rw [h1] at hev; simp at hev
     | ok vs w1 =>
       rw [h1] at hev; simp only [Res.andThen_ok] at hev
-      have hvs := ih.list hok.2 hargs hρ hK h1
+      obtain ⟨Ψ1, hx1, hw1, hvs⟩ := ih.list hok.2 hargs hρ hK hw h1
       cases hf : fieldTys S c t with
       | none => simp [hf] at hfts
       | some fts =>
@@ -217,14 +232,14 @@ theorem step_expr (hS : SigClosed S) (hP : okProg S P = true) {n : Nat} (ih : So
         cases c with
         | enum tn vn idx =>
           simp only [] at hev
-          obtain ⟨rfl, _⟩ := res_ok_inj hev
+          obtain ⟨rfl, rfl⟩ := res_ok_inj hev
           have hk : isEnumTy (substTy θ t) = true := isEnumTy_subst θ t (by simpa [ctorTyOk] using hok.1)
-          exact .enumV hk (enumFieldTys_of_fieldTys hf') hvs
+          exact ⟨Ψ1, hx1, hw1, .enumV hk (enumFieldTys_of_fieldTys hf') hvs⟩
         | struct tn =>
           simp only [] at hev
-          obtain ⟨rfl, _⟩ := res_ok_inj hev
+          obtain ⟨rfl, rfl⟩ := res_ok_inj hev
           have hk : isStructTy (substTy θ t) = true := isStructTy_subst θ t (by simpa [ctorTyOk] using hok.1)
-          exact .structV hk hf' hvs
+          exact ⟨Ψ1, hx1, hw1, .structV hk hf' hvs⟩
   | tuple t items =>
     simp only [okE] at hok
     simp only [errs, List.append_eq_nil_iff, checkEq_nil] at herr
@@ -233,10 +248,9 @@ theorem step_expr (hS : SigClosed S) (hP : okProg S P = true) {n : Nat} (ih : So
     | fail f w1 => rw [h1] at hev; simp at hev
     | ok vs w1 =>
       rw [h1] at hev; simp only [Res.andThen_ok] at hev
-      obtain ⟨rfl, _⟩ := res_ok_inj hev
-      have hvs := ih.list hok herr.1 hρ hK h1
-      simp only [getTy, herr.2, substTy]
-      exact .tuple hvs
+      obtain ⟨rfl, rfl⟩ := res_ok_inj hev
+      obtain ⟨Ψ1, hx1, hw1, hvs⟩ := ih.list hok herr.1 hρ hK hw h1
+      exact ⟨Ψ1, hx1, hw1, by simp only [getTy, herr.2, substTy]; exact .tuple hvs⟩
   | array t items =>
     simp only [okE] at hok
     simp only [errs, List.append_eq_nil_iff] at herr
@@ -246,12 +260,13 @@ theorem step_expr (hS : SigClosed S) (hP : okProg S P = true) {n : Nat} (ih : So
     | fail f w1 => rw [h1] at hev; simp at hev
     | ok vs w1 =>
       rw [h1] at hev; simp only [Res.andThen_ok] at hev
-      obtain ⟨rfl, _⟩ := res_ok_inj hev
-      have hvs := ih.list hok hitems hρ hK h1
+      obtain ⟨rfl, rfl⟩ := res_ok_inj hev
+      obtain ⟨Ψ1, hx1, hw1, hvs⟩ := ih.list hok hitems hρ hK hw h1
       cases t with
       | array nn e =>
         simp only [List.append_eq_nil_iff, check_nil, beq_iff_eq] at hty
         obtain ⟨hn, hall⟩ := hty
+        refine ⟨Ψ1, hx1, hw1, ?_⟩
         simp only [getTy, substTy]
         refine .array (VTs_all hvs ?_) ?_
         · intro u hu
@@ -264,9 +279,8 @@ theorem step_expr (hS : SigClosed S) (hP : okProg S P = true) {n : Nat} (ih : So
     simp only [okE] at hok
     simp only [errs, List.append_eq_nil_iff, checkEq_nil] at herr
     rw [eval_closure] at hev
-    obtain ⟨rfl, _⟩ := res_ok_inj hev
-    simp only [getTy, herr.2, substTy_func]
-    exact .closure hρ herr.1 hok
+    obtain ⟨rfl, rfl⟩ := res_ok_inj hev
+    exact ⟨Ψ, Ext.refl Ψ, hw, by simp only [getTy, herr.2, substTy_func]; exact .closure hρ herr.1 hok⟩
   | letE x v0 b =>
     simp only [okE, Bool.and_eq_true] at hok
     simp only [errs, List.append_eq_nil_iff] at herr
@@ -275,12 +289,12 @@ theorem step_expr (hS : SigClosed S) (hP : okProg S P = true) {n : Nat} (ih : So
     | fail f w1 => rw [h1] at hev; simp at hev
     | ok vv w1 =>
       rw [h1] at hev; simp only [Res.andThen_ok] at hev
-      have hvv := ih.expr hok.1 herr.1 hρ hK h1
-      simp only [getTy]
-      exact ih.expr hok.2 herr.2 (.cons hvv hρ) (KOk_drop hK x vv) hev
+      obtain ⟨Ψ1, hx1, hw1, hvv⟩ := ih.expr hok.1 herr.1 hρ hK hw h1
+      obtain ⟨Ψ2, hx2, hw2, hv2⟩ := ih.expr hok.2 herr.2 (.cons hvv (hρ.mono hx1)) (KOk_drop hK x vv) hw1 hev
+      exact ⟨Ψ2, hx1.trans hx2, hw2, by simpa [getTy] using hv2⟩
   | matchE t s arms d =>
-    have hok' : okE S P false Γ K s = true ∧ okA S P false Γ K (scrutLocal Γ s) arms = true ∧
-        (∀ d0, d = some d0 → okE S P false Γ K d0 = true) := by
+    have hok' : okE S P true Γ K s = true ∧ okA S P true Γ K (scrutLocal Γ s) arms = true ∧
+        (∀ d0, d = some d0 → okE S P true Γ K d0 = true) := by
       cases d with
       | none =>
         simp only [okE, Bool.and_eq_true] at hok
@@ -291,7 +305,7 @@ theorem step_expr (hS : SigClosed S) (hP : okProg S P = true) {n : Nat} (ih : So
     obtain ⟨hs, harms, hdok⟩ := hok'
     rw [eval_matchE] at hev
     have herr' : errs S Γ s = [] ∧ errsArms S Γ (getTy s) t arms = [] ∧
-        (∀ d0, d = some d0 → okE S P false Γ K d0 = true ∧ errs S Γ d0 = [] ∧ getTy d0 = t) := by
+        (∀ d0, d = some d0 → okE S P true Γ K d0 = true ∧ errs S Γ d0 = [] ∧ getTy d0 = t) := by
       cases d with
       | none =>
         simp only [errs, List.append_eq_nil_iff] at herr
@@ -306,13 +320,14 @@ theorem step_expr (hS : SigClosed S) (hP : okProg S P = true) {n : Nat} (ih : So
     | fail f w1 => rw [h1] at hev; simp at hev
     | ok sval w1 =>
       rw [h1] at hev; simp only [Res.andThen_ok] at hev
+      obtain ⟨Ψ1, hx1, hw1, _⟩ := ih.expr hs hse hρ hK hw h1
       have hsv : ∀ x, scrutLocal Γ s = some x → lookupEnv ρ x = some sval := by
         intro x hx
         cases s <;> simp [scrutLocal, scrutVar] at hx
         obtain ⟨hl, rfl⟩ := hx
-        exact (eval_local hl hρ h1).1
-      simp only [getTy]
-      exact ih.arms harms hae hde hρ hK hsv hev
+        exact (eval_local hl hρ h1).2.1
+      obtain ⟨Ψ2, hx2, hw2, hv2⟩ := ih.arms harms hae hde (hρ.mono hx1) hK hw1 hsv hev
+      exact ⟨Ψ2, hx1.trans hx2, hw2, by simpa [getTy] using hv2⟩
   | ite c t e2 =>
     simp only [okE, Bool.and_eq_true] at hok
     simp only [errs, List.append_eq_nil_iff, checkEq_nil] at herr
@@ -322,10 +337,13 @@ theorem step_expr (hS : SigClosed S) (hP : okProg S P = true) {n : Nat} (ih : So
     | fail f w1 => rw [h1] at hev; simp at hev
     | ok vc w1 =>
       rw [h1] at hev; simp only [Res.andThen_ok] at hev
+      obtain ⟨Ψ1, hx1, hw1, _⟩ := ih.expr hok.1.1 hc hρ hK hw h1
       simp only [getTy]
       split at hev
-      · exact ih.expr hok.1.2 ht hρ hK hev
-      · rw [hte]; exact ih.expr hok.2 he hρ hK hev
+      · obtain ⟨Ψ2, hx2, hw2, hv2⟩ := ih.expr hok.1.2 ht (hρ.mono hx1) hK hw1 hev
+        exact ⟨Ψ2, hx1.trans hx2, hw2, hv2⟩
+      · obtain ⟨Ψ2, hx2, hw2, hv2⟩ := ih.expr hok.2 he (hρ.mono hx1) hK hw1 hev
+        exact ⟨Ψ2, hx1.trans hx2, hw2, by rw [hte]; exact hv2⟩
       · cases hev
   | «while» c b =>
     have hok0 := hok
@@ -337,14 +355,17 @@ theorem step_expr (hS : SigClosed S) (hP : okProg S P = true) {n : Nat} (ih : So
     | fail f w1 => rw [h1] at hev; simp at hev
     | ok vc w1 =>
       rw [h1] at hev; simp only [Res.andThen_ok] at hev
+      obtain ⟨Ψ1, hx1, hw1, _⟩ := ih.expr hok.1 herr.1.1 hρ hK hw h1
       split at hev
       · cases h2 : eval n P ρ w1 b with
         | fail f w2 => rw [h2] at hev; simp at hev
         | ok vb w2 =>
           rw [h2] at hev; simp only [Res.andThen_ok] at hev
-          exact ih.expr hok0 herr0 hρ hK hev
-      · obtain ⟨rfl, _⟩ := res_ok_inj hev
-        simp only [getTy, substTy]; exact .unit
+          obtain ⟨Ψ2, hx2, hw2, _⟩ := ih.expr hok.2 herr.1.2 (hρ.mono hx1) hK hw1 h2
+          obtain ⟨Ψ3, hx3, hw3, hv3⟩ := ih.expr hok0 herr0 (hρ.mono (hx1.trans hx2)) hK hw2 hev
+          exact ⟨Ψ3, (hx1.trans hx2).trans hx3, hw3, hv3⟩
+      · obtain ⟨rfl, rfl⟩ := res_ok_inj hev
+        exact ⟨Ψ1, hx1, hw1, by simp only [getTy, substTy]; exact .unit⟩
       · cases hev
   | go e0 => simp [okE] at hok
   | cget c i t e0 =>
@@ -357,7 +378,7 @@ theorem step_expr (hS : SigClosed S) (hP : okProg S P = true) {n : Nat} (ih : So
     | fail f w1 => rw [h1] at hev; simp at hev
     | ok ve w1 =>
       rw [h1] at hev; simp only [Res.andThen_ok] at hev
-      have hve := ih.expr he0 hee hρ hK h1
+      obtain ⟨Ψ1, hx1, hw1, hve⟩ := ih.expr he0 hee hρ hK hw h1
       cases hf : fieldTys S c (getTy e0) with
       | none => simp [hf] at hfts
       | some fts =>
@@ -377,17 +398,17 @@ theorem step_expr (hS : SigClosed S) (hP : okProg S P = true) {n : Nat} (ih : So
             have hstruct : isStructTy τ = true := by
               rw [← hτ]; exact isStructTy_subst θ _ (by simpa [ctorTyOk] using hkind)
             cases hve with
-            | @structV sn fs _ fts' h1 h2 h3 =>
+            | @structV sn fs _ fts' h1' h2' h3' =>
               simp only [] at hev
-              have : sn = tn := nominalArgs_name (fieldTys_nominal h2) hnomc
+              have : sn = tn := nominalArgs_name (fieldTys_nominal h2') hnomc
               subst this
-              rw [hf'] at h2
-              injection h2 with h2; subst h2
-              obtain ⟨fv, hfv, hty⟩ := VTs_get h3 i _ hi'
+              rw [hf'] at h2'
+              injection h2' with h2'; subst h2'
+              obtain ⟨fv, hfv, hty⟩ := VTs_get h3' i _ hi'
               rw [hfv] at hev; simp only [] at hev
-              obtain ⟨rfl, _⟩ := res_ok_inj hev
-              exact hty
-            | enumV h1 _ _ => exact (not_enum_and_struct h1 hstruct).elim
+              obtain ⟨rfl, rfl⟩ := res_ok_inj hev
+              exact ⟨Ψ1, hx1, hw1, hty⟩
+            | enumV h1' _ _ => exact (not_enum_and_struct h1' hstruct).elim
             | _ => simp at hev
           | enum tn vn ci =>
             simp only [] at hflow
@@ -402,20 +423,20 @@ theorem step_expr (hS : SigClosed S) (hP : okProg S P = true) {n : Nat} (ih : So
                   have := ET_lookup hρ x
                   simp only [hx] at this
                   rw [this] at hlk; cases hlk
-              have hl := (eval_local hloc hρ h1).1
+              have hl := (eval_local hloc hρ h1).2.1
               rw [hlk] at hl
               injection hl with hl; subst hl
               cases hve with
-              | @enumV _ _ _ _ fts' h1 h2 h3 =>
+              | @enumV _ _ _ _ fts' h1' h2' h3' =>
                 simp only [] at hev
-                have : en = tn := nominalArgs_name (enumFieldTys_nominal h2) hnomc
+                have : en = tn := nominalArgs_name (enumFieldTys_nominal h2') hnomc
                 subst this
-                rw [enumFieldTys_of_fieldTys hf'] at h2
-                injection h2 with h2; subst h2
-                obtain ⟨fv, hfv, hty⟩ := VTs_get h3 i _ hi'
+                rw [enumFieldTys_of_fieldTys hf'] at h2'
+                injection h2' with h2'; subst h2'
+                obtain ⟨fv, hfv, hty⟩ := VTs_get h3' i _ hi'
                 rw [hfv] at hev; simp only [] at hev
-                obtain ⟨rfl, _⟩ := res_ok_inj hev
-                exact hty
+                obtain ⟨rfl, rfl⟩ := res_ok_inj hev
+                exact ⟨Ψ1, hx1, hw1, hty⟩
             | _ => simp at hflow
   | un op t e0 =>
     simp only [okE] at hok
@@ -425,14 +446,13 @@ theorem step_expr (hS : SigClosed S) (hP : okProg S P = true) {n : Nat} (ih : So
     | fail f w1 => rw [h1] at hev; simp at hev
     | ok ve w1 =>
       rw [h1] at hev; simp only [Res.andThen_ok] at hev
-      have hve := ih.expr hok herr.1 hρ hK h1
+      obtain ⟨Ψ1, hx1, hw1, hve⟩ := ih.expr hok herr.1 hρ hK hw h1
       cases hu : unop op ve with
       | error f => rw [hu] at hev; cases hev
       | ok r =>
         rw [hu] at hev; simp only [] at hev
-        obtain ⟨rfl, _⟩ := res_ok_inj hev
-        simp only [getTy]
-        exact unop_sound (unopOk_subst θ op t _ herr.2) hve hu
+        obtain ⟨rfl, rfl⟩ := res_ok_inj hev
+        exact ⟨Ψ1, hx1, hw1, by simp only [getTy]; exact unop_sound (unopOk_subst θ op t _ herr.2) hve hu⟩
   | bin op t l r =>
     simp only [okE, Bool.and_eq_true] at hok
     simp only [errs, List.append_eq_nil_iff, check_nil] at herr
@@ -443,22 +463,22 @@ theorem step_expr (hS : SigClosed S) (hP : okProg S P = true) {n : Nat} (ih : So
     | fail f w1 => rw [h1] at hev; simp at hev
     | ok va w1 =>
       rw [h1] at hev; simp only [Res.andThen_ok] at hev
-      have hva := ih.expr hok.1 hl hρ hK h1
+      obtain ⟨Ψ1, hx1, hw1, hva⟩ := ih.expr hok.1 hl hρ hK hw h1
       simp only [getTy]
-      have hbool : ∀ b, (op = .and ∨ op = .or) → VT S P (.bool b) (substTy θ t) := by
-        intro b hcase
+      have hbool : ∀ (Ψ0 : List Ty) b, (op = .and ∨ op = .or) → VT S P Ψ0 (.bool b) (substTy θ t) := by
+        intro Ψ0 b hcase
         rcases hcase with rfl | rfl <;> simp only [binopOk, Bool.and_eq_true] at hop' <;>
           (have := tyEq hop'.2; rw [this]; exact .bool _)
       by_cases c1 : scAnd op va = true
       · rw [if_pos c1] at hev
-        obtain ⟨rfl, _⟩ := res_ok_inj hev
-        refine hbool _ (Or.inl ?_)
+        obtain ⟨rfl, rfl⟩ := res_ok_inj hev
+        refine ⟨Ψ1, hx1, hw1, hbool _ _ (Or.inl ?_)⟩
         unfold scAnd at c1; split at c1 <;> simp_all
       · rw [if_neg c1] at hev
         by_cases c2 : scOr op va = true
         · rw [if_pos c2] at hev
-          obtain ⟨rfl, _⟩ := res_ok_inj hev
-          refine hbool _ (Or.inr ?_)
+          obtain ⟨rfl, rfl⟩ := res_ok_inj hev
+          refine ⟨Ψ1, hx1, hw1, hbool _ _ (Or.inr ?_)⟩
           unfold scOr at c2; split at c2 <;> simp_all
         · rw [if_neg c2] at hev
           by_cases c3 : logicalNonBool op va = true
@@ -468,48 +488,47 @@ theorem step_expr (hS : SigClosed S) (hP : okProg S P = true) {n : Nat} (ih : So
             | fail f w2 => rw [h2] at hev; simp at hev
             | ok vb w2 =>
               rw [h2] at hev; simp only [Res.andThen_ok] at hev
-              have hvb := ih.expr hok.2 hr hρ hK h2
+              obtain ⟨Ψ2, hx2, hw2, hvb⟩ := ih.expr hok.2 hr (hρ.mono hx1) hK hw1 h2
               cases hb : binop op va vb with
               | error f => rw [hb] at hev; cases hev
               | ok rv =>
                 rw [hb] at hev; simp only [] at hev
-                obtain ⟨rfl, _⟩ := res_ok_inj hev
-                exact binop_sound hop' hva hvb hb
+                obtain ⟨rfl, rfl⟩ := res_ok_inj hev
+                exact ⟨Ψ2, hx1.trans hx2, hw2, binop_sound hop' (hva.mono hx2) hvb hb⟩
   | call t f args =>
     simp only [okE, Bool.and_eq_true, Bool.or_eq_true] at hok
     obtain ⟨hargsok, hf⟩ := hok
     simp only [errs, List.append_eq_nil_iff] at herr
     rw [eval_call] at hev
     simp only [getTy]
+    have hglobal : ∀ {fn : String} {tf : Ty} {m : Nat}, lookupVar Γ fn = none →
+        eval (m + 1) P ρ w (.var fn tf) = .ok (.fn fn) w := by
+      intro fn tf m hnone
+      rw [eval_var]
+      have := ET_lookup hρ fn
+      simp only [hnone] at this
+      rw [this]; rfl
     rcases hf with (hdirect | hpoly) | ⟨hfok, hfty⟩
-    · -- an admitted builtin
-      cases f with
+    · cases f with
       | var fn tf =>
-        simp only [Bool.and_eq_true] at hdirect
+        simp only [Bool.and_eq_true, Option.isNone_iff_eq_none] at hdirect
         obtain ⟨⟨hnone, hb⟩, htf⟩ := hdirect
         have htf := tyEq htf
         cases n with
         | zero => rw [eval_zero] at hev; simp at hev
         | succ m =>
-          rw [eval_var] at hev
-          have hlk : lookupEnv ρ fn = none := by
-            have := ET_lookup hρ fn
-            cases hx : lookupVar Γ fn with
-            | some _ => simp [hx] at hnone
-            | none => simpa [hx] using this
-          rw [hlk] at hev
-          simp only [Option.getD_none, Res.andThen_ok] at hev
+          rw [hglobal hnone] at hev
+          simp only [Res.andThen_ok] at hev
           cases h2 : evalList (m + 1) P ρ w args with
           | fail f w2 => rw [h2] at hev; simp at hev
           | ok vs w2 =>
             rw [h2] at hev; simp only [Res.andThen_ok] at hev
-            have hvs := ih.list hargsok herr.1.2 hρ hK h2
+            obtain ⟨Ψ1, hx1, hw1, hvs⟩ := ih.list hargsok herr.1.2 hρ hK hw h2
             unfold builtinOk at hb
             simp only [Bool.and_eq_true, Option.isNone_iff_eq_none] at hb
             obtain ⟨hg, hb⟩ := hb
             cases hbt : builtinTy fn with
             | none =>
-              -- `missing`: always panics
               simp only [hbt, Bool.and_eq_true, beq_iff_eq] at hb
               obtain ⟨rfl, hshape⟩ := hb
               exfalso
@@ -538,46 +557,45 @@ theorem step_expr (hS : SigClosed S) (hP : okProg S P = true) {n : Nat} (ih : So
                   (obtain ⟨h1, h2⟩ := hbt; rw [← h1, ← h2]; simp [substTys, substTy])
               rw [hclosed.1] at hvs
               rw [hclosed.2]
-              exact builtin_sound hbt hvs hev
+              have := builtin_sound hbt hvs hev
+              exact ⟨Ψ1, hx1, hw1.of_store this.2, this.1⟩
       | _ => simp at hdirect
-    · -- an array / vector builtin, judged on the shape of the argument and result types
-      cases f with
+    · cases f with
       | var fn tf =>
-        simp only [Bool.and_eq_true, Option.isNone_iff_eq_none] at hpoly
+        simp only [Bool.and_eq_true, Option.isNone_iff_eq_none, Bool.or_eq_true, Bool.true_and] at hpoly
         obtain ⟨⟨hnone, hg⟩, hp⟩ := hpoly
-        simp only [Bool.false_and, Bool.or_false] at hp
         cases n with
         | zero => rw [eval_zero] at hev; simp at hev
         | succ m =>
-          rw [eval_var] at hev
-          have hlk : lookupEnv ρ fn = none := by
-            have := ET_lookup hρ fn
-            simpa [hnone] using this
-          rw [hlk] at hev
-          simp only [Option.getD_none, Res.andThen_ok] at hev
+          rw [hglobal hnone] at hev
+          simp only [Res.andThen_ok] at hev
           cases h2 : evalList (m + 1) P ρ w args with
           | fail f w2 => rw [h2] at hev; simp at hev
           | ok vs w2 =>
             rw [h2] at hev; simp only [Res.andThen_ok] at hev
-            have hvs := ih.list hargsok herr.1.2 hρ hK h2
+            obtain ⟨Ψ1, hx1, hw1, hvs⟩ := ih.list hargsok herr.1.2 hρ hK hw h2
             rw [apply_fn, hg] at hev
             simp only [] at hev
-            exact poly_sound hp hvs hev
+            rcases hp with hp | hp
+            · have := poly_sound hp hvs hev
+              exact ⟨Ψ1, hx1, hw1.of_store this.2, this.1⟩
+            · obtain ⟨Ψ2, hx2, hw2, hv2⟩ := ref_sound hp hw1 hvs hev
+              exact ⟨Ψ2, hx1.trans hx2, hw2, hv2⟩
       | _ => simp at hpoly
-    · -- any fragment expression of function type
-      have hfty := tyEq hfty
+    · have hfty := tyEq hfty
       cases h1 : eval n P ρ w f with
       | fail f w1 => rw [h1] at hev; simp at hev
       | ok fv w1 =>
         rw [h1] at hev; simp only [Res.andThen_ok] at hev
-        have hfv := ih.expr hfok herr.1.1 hρ hK h1
+        obtain ⟨Ψ1, hx1, hw1, hfv⟩ := ih.expr hfok herr.1.1 hρ hK hw h1
         rw [hfty, substTy_func] at hfv
         cases h2 : evalList n P ρ w1 args with
         | fail f w2 => rw [h2] at hev; simp at hev
         | ok vs w2 =>
           rw [h2] at hev; simp only [Res.andThen_ok] at hev
-          have hvs := ih.list hargsok herr.1.2 hρ hK h2
-          exact ih.appv hfv hvs hev
+          obtain ⟨Ψ2, hx2, hw2, hvs⟩ := ih.list hargsok herr.1.2 (hρ.mono hx1) hK hw1 h2
+          obtain ⟨Ψ3, hx3, hw3, hv3⟩ := ih.appv (hfv.mono hx2) hvs hw2 hev
+          exact ⟨Ψ3, (hx1.trans hx2).trans hx3, hw3, hv3⟩
   | toDyn tr ft t e0 => simp [okE] at hok
   | dynCall tr m t recv args => simp [okE] at hok
   | traitCall tr m t recv args =>
@@ -589,15 +607,19 @@ theorem step_expr (hS : SigClosed S) (hP : okProg S P = true) {n : Nat} (ih : So
     | fail f w1 => rw [h1] at hev; simp at hev
     | ok rv w1 =>
       rw [h1] at hev; simp only [Res.andThen_ok] at hev
-      have hrv := ih.expr hrecv herr.1.1 hρ hK h1
+      obtain ⟨Ψ1, hx1, hw1, hrv0⟩ := ih.expr hrecv herr.1.1 hρ hK hw h1
       cases h2 : evalList n P ρ w1 args with
       | fail f w2 => rw [h2] at hev; simp at hev
       | ok vs w2 =>
         rw [h2] at hev; simp only [Res.andThen_ok] at hev
-        have hvs := ih.list hargsok herr.1.2 hρ hK h2
+        obtain ⟨Ψ2, hx2, hw2, hvs⟩ := ih.list hargsok herr.1.2 (hρ.mono hx1) hK hw1 h2
+        have hrv := hrv0.mono hx2
+        have fin : ∀ {τ : Ty}, (∃ Ψ', Ext Ψ2 Ψ' ∧ WT S P Ψ' w' ∧ VT S P Ψ' v τ) →
+            ∃ Ψ', Ext Ψ Ψ' ∧ WT S P Ψ' w' ∧ VT S P Ψ' v τ := by
+          rintro τ ⟨Ψ3, hx3, hw3, hv3⟩
+          exact ⟨Ψ3, (hx1.trans hx2).trans hx3, hw3, hv3⟩
         rcases hdisp with ⟨hconc, hdisp⟩ | himp
-        · -- a concretely annotated receiver with a dispatch row of the annotated signature
-          rw [substTy_concrete θ hconc] at hrv
+        · rw [substTy_concrete θ hconc] at hrv
           rw [valKey_of_VT hconc hrv] at hev
           unfold dispatchOk at hdisp
           cases hrow : P.impls.find? (fun i => i.1 == tr && i.2.1 == tyKey (getTy recv) && i.2.2.1 == m) with
@@ -613,11 +635,10 @@ theorem step_expr (hS : SigClosed S) (hP : okProg S P = true) {n : Nat} (ih : So
               injection hsig with hps hret
               have key := ih.app (θ := θ) hg (by
                 rw [hps]; simp only [substTys, substTy_concrete θ hconc]
-                exact .cons hrv hvs) hev
+                exact .cons hrv hvs) hw2 hev
               rw [hret] at key
-              simpa [getTy] using key
-        · -- any receiver (a type parameter instantiated at run time): the dispatch-table check
-          unfold implsOk at himp
+              exact fin (by simpa [getTy] using key)
+        · unfold implsOk at himp
           simp only [Bool.and_eq_true, List.all_eq_true] at himp
           obtain ⟨hnames, hrows⟩ := himp
           cases hrow : P.impls.find? (fun i => i.1 == tr && i.2.1 == valKey rv && i.2.2.1 == m) with
@@ -656,9 +677,9 @@ theorem step_expr (hS : SigClosed S) (hP : okProg S P = true) {n : Nat} (ih : So
                   injection hfn with hps' hret
                   have key := ih.app (θ := []) hg (by
                     rw [substTys_nil, ← hps']; simp only [substTys]
-                    exact .cons hrv hvs) hev
+                    exact .cons hrv hvs) hw2 hev
                   rw [substTy_nil, ← hret] at key
-                  simpa [getTy] using key
+                  exact fin (by simpa [getTy] using key)
   | proj i t e0 =>
     simp only [okE] at hok
     simp only [errs, List.append_eq_nil_iff] at herr
@@ -668,7 +689,7 @@ theorem step_expr (hS : SigClosed S) (hP : okProg S P = true) {n : Nat} (ih : So
     | fail f w1 => rw [h1] at hev; simp at hev
     | ok ve w1 =>
       rw [h1] at hev; simp only [Res.andThen_ok] at hev
-      have hve := ih.expr hok hee hρ hK h1
+      obtain ⟨Ψ1, hx1, hw1, hve⟩ := ih.expr hok hee hρ hK hw h1
       cases hg : getTy e0 <;> simp only [hg] at hpt <;> try (simp at hpt)
       rename_i ts
       cases hi : ts[i]? with
@@ -683,46 +704,25 @@ theorem step_expr (hS : SigClosed S) (hP : okProg S P = true) {n : Nat} (ih : So
         obtain ⟨fv, hfv, hty⟩ := VTs_get hvs i _ hi'
         simp only [] at hev
         rw [hfv] at hev; simp only [] at hev
-        obtain ⟨rfl, _⟩ := res_ok_inj hev
-        simpa [getTy] using hty
+        obtain ⟨rfl, rfl⟩ := res_ok_inj hev
+        exact ⟨Ψ1, hx1, hw1, by simpa [getTy] using hty⟩
 
-theorem step_appv (hS : SigClosed S) (hP : okProg S P = true) {n : Nat} (ih : SoundAt S P n)
-    {fv : Val} {as : List Ty} {r : Ty} {args : List Val} {w : World} {v : Val} {w' : World}
-    (hf : VT S P fv (.func as r)) (ha : VTs S P args as) (hev : apply (n + 1) P w fv args = .ok v w') :
-    VT S P v r := by
-  generalize hτ : Ty.func as r = τ at hf
-  cases hf with
-  | @closure θc ρc Γc pts body hρc herr hok =>
-    injection hτ with h1 h2
-    subst h1; subst h2
-    rw [apply_closure] at hev
-    exact ih.expr hok herr (ET_bind pts args ρc Γc ha hρc) (KOk_nil _) hev
-  | @fn name g θ' hg =>
-    unfold fnTy at hτ
-    rw [substTy_func] at hτ
-    injection hτ with h1 h2
-    subst h1; subst h2
-    exact step_app hS hP ih hg ha hev
-  | enumV h1 _ _ => subst hτ; simp [isEnumTy] at h1
-  | structV h1 _ _ => subst hτ; simp [isStructTy] at h1
-  | _ => cases hτ
-
-/-- **type soundness of `Sem` on the fragment**, for every amount of fuel -/
-theorem sound_all (hS : SigClosed S) (hP : okProg S P = true) (n : Nat) : SoundAt S P n := by
+/-- **type soundness of `Sem` with references**, for every amount of fuel -/
+theorem sound_all (hS : SigClosed S) (hP : okProg S P true = true) (n : Nat) : SoundAt S P n := by
   induction n with
   | zero =>
     refine ⟨?_, ?_, ?_, ?_, ?_⟩
-    · intro e ρ w Γ K θ v w' _ _ _ _ h; rw [eval_zero] at h; cases h
-    · intro es ρ w Γ K θ vs w' _ _ _ _ h; rw [evalList_zero] at h; cases h
-    · intro arms d ρ w Γ K θ sv st rt sval v w' _ _ _ _ _ _ h; rw [evalArms_zero] at h; cases h
-    · intro name g θ args w v w' _ _ h; rw [apply_zero] at h; cases h
-    · intro fv as r args w v w' _ _ h; rw [apply_zero] at h; cases h
+    · intro e ρ w Γ K θ Ψ v w' _ _ _ _ _ h; rw [eval_zero] at h; cases h
+    · intro es ρ w Γ K θ Ψ vs w' _ _ _ _ _ h; rw [evalList_zero] at h; cases h
+    · intro arms d ρ w Γ K θ Ψ sv st rt sval v w' _ _ _ _ _ _ _ h; rw [evalArms_zero] at h; cases h
+    · intro name g θ Ψ args w v w' _ _ _ h; rw [apply_zero] at h; cases h
+    · intro fv as r Ψ args w v w' _ _ _ h; rw [apply_zero] at h; cases h
   | succ n ih =>
-    exact ⟨fun h1 h2 h3 h4 h5 => step_expr hS hP ih h1 h2 h3 h4 h5,
-           fun h1 h2 h3 h4 h5 => step_list ih h1 h2 h3 h4 h5,
-           fun h1 h2 h3 h4 h5 h6 h7 => step_arms ih h1 h2 h3 h4 h5 h6 h7,
-           fun h1 h2 h3 => step_app hS hP ih h1 h2 h3,
-           fun h1 h2 h3 => step_appv hS hP ih h1 h2 h3⟩
+    exact ⟨fun h1 h2 h3 h4 h5 h6 => step_expr hS hP ih h1 h2 h3 h4 h5 h6,
+           fun h1 h2 h3 h4 h5 h6 => step_list ih h1 h2 h3 h4 h5 h6,
+           fun h1 h2 h3 h4 h5 h6 h7 h8 => step_arms ih h1 h2 h3 h4 h5 h6 h7 h8,
+           fun h1 h2 h3 h4 => step_app hP ih h1 h2 h3 h4,
+           fun h1 h2 h3 h4 => step_appv hP ih h1 h2 h3 h4⟩
 
 end
-end Goml.ValTy
+end Goml.ValTyR
